@@ -412,7 +412,7 @@ fn documents(tier: Tier) -> Vec<DocFaults> {
                     }
                 }
             }
-            let text_consts: [&[u8]; 7] = [b"-1", b"x", b"18446744073709551616", b"4294967296", b"1 2", b"&#0;", b"&bogus;"];
+            let text_consts: [&[u8]; 19] = [b"-1", b"x", b"18446744073709551616", b"4294967296", b"1 2", b"&#0;", b"&bogus;", "\u{FF11}".as_bytes(), "2\u{B3}".as_bytes(), "\u{663}".as_bytes(), "\u{2167}".as_bytes(), "\u{BD}".as_bytes(), b" 1", b"1 ", b"+1", b"0x10", b"1e3", "\u{FF11}\u{FF12}".as_bytes(), "1\u{200B}".as_bytes()];
             let mut dtexts: Vec<Vec<u8>> = vec![];
             for (a, b) in &s.texts {
                 let v = doc[*a..*b].to_vec();
@@ -425,6 +425,19 @@ fn documents(tier: Tier) -> Vec<DocFaults> {
                 for v in text_consts.iter().copied().chain(dtexts.iter().map(|v| v.as_slice())) {
                     if v != cur {
                         substitutions.push((*a, *b, v.to_vec(), "the element text"));
+                    }
+                }
+            }
+            // decoy attributes: an extra attribute inserted in front of every attribute, whose name is a
+            // namespaced / prefixed / suffixed variant of the real one (or a plain unknown one)
+            if !big {
+                for (a, _b) in &s.attributes {
+                    // the attribute range starts at the blank in front of the name
+                    let name_end = doc[*a + 1..].iter().position(|c| *c == b'=').map(|p| *a + 1 + p).unwrap_or(*a + 1);
+                    let name = String::from_utf8_lossy(&doc[*a + 1..name_end]).to_string();
+                    let local = name.rsplit(':').next().unwrap_or("").to_string();
+                    for decoy in [format!(" ext:O{}=\"decoy\"", local), format!(" x:{}=\"decoy\"", local), format!(" {}2=\"decoy\"", local), format!(" O{}=\"decoy\"", local), " unknown=\"1\"".to_string(), format!(" {}=\"duplicate\"", name)] {
+                        substitutions.push((*a, *a, decoy.into_bytes(), "nothing (an attribute is INSERTED in front of this one)"));
                     }
                 }
             }
@@ -523,6 +536,33 @@ pub fn run(ctx: &Ctx) {
             loc.state(i + 7_000_000, true);
             judge_paths(&[p], &what, json!({"what": what}), loc);
         }).chunk(1));
+    }
+    // a multi-byte character at EVERY byte offset of a DESC text, in a document with duplicated PDU and
+    // frame ids (the loader's diagnostics quote such texts; with the trace pass they are formatted)
+    {
+        let n = ctx.tier.pick(300usize, 1200usize);
+        let chars = ["\u{B0}", "\u{20AC}", "\u{1F600}"];
+        let sp = Space::new(&[n + 1, chars.len(), 2]);
+        let s2 = sp.clone();
+        ctx.run_family(Family::new("c12.text_char_positions", sp.size(), format!("a document with a PDU id and a frame id defined twice whose second definition's DESC / SHORT-NAME holds one 2-, 3- or 4-byte character at EVERY byte offset 0..={} of an ASCII text; loaded normally and (trace pass) with logging on", n), move |i, loc| {
+            let c = s2.coords(i);
+            let mut t = "a".repeat(c[0]);
+            t.push_str(chars[c[1]]);
+            t.push_str(&"b".repeat(40));
+            let elems: Vec<Elem> = vec![
+                Elem::Pdu(pdu("P1", Desc::Text("first".into()), &[("S_UINT8", 0)])),
+                Elem::Pdu(pdu("P1", Desc::Text(if c[2] == 0 { t.clone() } else { "second".into() }), &[("S_SINT16", 0)])),
+                Elem::Frame(frame("ID_1", "first frame", &[("P1", 0)], None)),
+                Elem::Frame(frame("ID_1", if c[2] == 1 { &t } else { "second frame" }, &[("P1", 0)], None)),
+            ];
+            let d = render_doc(&elems, &Layout { indent: c[0] % 2 == 0, ..Layout::default() }).into_bytes();
+            let dir = thread_dir();
+            let p = format!("{}/txt.xml", dir);
+            std::fs::write(&p, &d).expect("write");
+            let what = format!("duplicate PDU / frame ids, {} text with a {}-byte character at offset {}", if c[2] == 0 { "DESC" } else { "SHORT-NAME" }, chars[c[1]].len(), c[0]);
+            loc.state(i + 9_000_000, true);
+            judge_paths(&[p], &what, json!({"what": what}), loc);
+        }).trace(100_000));
     }
     // bad paths
     {
